@@ -396,6 +396,23 @@ class Ctx:
                 found=None if e is not None else '; '.join(f"{c['form']}: src={show(c['src']) if c['src'] else None} elem={show(c['elem'])[:200]} conds={len(c['conds'])}" for c in comps) or show(d)[:300])
         return e
 
+    def expect_reduce(self, rule, key, body, d, ops, src_pat, elem_pat, desc, where=None, init_pat=None, n_conds=0, env=None):
+        """obligation: the scalar d folds ONE sequence (vpa/comp.py reduction: accumulator loop or iterator chain alike) with an operation in `ops`,
+        source matching src_pat, element matching elem_pat over the canonical running element, exactly n_conds conditions and, when given, an
+        initial value matching init_pat.  -> (env, reduction record) or (None, record)"""
+        from . import comp as _C
+        r = _C.reduction(self, body, d)
+        e = None
+        if r is not None and r['op'] in ops and len(r['conds']) == n_conds and r['src'] is not None:
+            e1 = match(src_pat, r['src'], env)
+            e = match(elem_pat, r['elem'], e1) if e1 is not None else None
+            if e is not None and init_pat is not None:
+                e = match(init_pat, r['init'], e) if r['init'] is not None else None
+        self.ob(rule, key, e is not None, desc, where=where or body.file,
+                found=None if e is not None else (f"{r['form']}: op={r['op']} init={show(r['init']) if r['init'] else None} src={show(r['src']) if r['src'] else None} "
+                                                  f"elem={show(r['elem'])[:240]} conds={len(r['conds'])}" if r else show(d)[:300]))
+        return e, r
+
     def cases_by(self, body, site, operands, split_pat):
         """the values of several operands at `site`, separated by the polarity of ONE branch condition: {True: [dag...], False: [dag...]}.
         Works whether the code has two sites under `if c {..} else {..}` (then call it per site: the side not taken is None) or one site
